@@ -30,6 +30,8 @@ mod parse;
 pub mod passes;
 mod tombstone_arena;
 mod ty;
+#[cfg(walrus_verif)]
+pub mod verif;
 
 pub use crate::const_expr::ConstExpr;
 pub use crate::emit::IdsToIndices;
